@@ -96,6 +96,8 @@ def prove(pid):
         files.append(f"Properties_{pid}_K.v")       # kernels as compiled (coq/gen/KernelGen_*.v, regenerated on every run)
     if os.path.exists(os.path.join(COQ, f"Properties_{pid}_O.v")):
         files.append(f"Properties_{pid}_O.v")       # whole operations as compiled (coq/gen/OpsGen_*.v, regenerated on every run)
+    if os.path.exists(os.path.join(COQ, f"Properties_{pid}_P.v")):
+        files.append(f"Properties_{pid}_P.v")       # branching operations as compiled, per path (coq/gen/PathGen_*.v)
     all_thms, all_ass, logs, good = [], {}, [], True
     for fn in files:
         ok, thms, ass, log = prove_file(fn)
